@@ -189,10 +189,15 @@ func (fr *Frame) localByName(name string, st *State) *Val {
 }
 
 func (e *evalEnv) loadAt(addr string, t types.Type) *Val {
-	save := e.fr.st
+	save, saveReach := e.fr.st, e.fr.reach
 	e.fr.st = e.st
 	v := e.fr.load(addr, t)
-	e.fr.st = save
+	if e.fr.vc.noDefine == 0 && len(e.bound) == 0 {
+		// Go's type-safety invariant holds for every value read from the heap
+		e.fr.reach = tTrue
+		e.fr.loadAssume(addr, t, v)
+	}
+	e.fr.st, e.fr.reach = save, saveReach
 	return v
 }
 
